@@ -170,7 +170,7 @@ func (lmdp) Gen(rng *rand.Rand, tier string) []Case {
 		valid:   valid,
 		hdrLen:  func(p []byte) int { return len(p) },
 		residue: residue,
-		seeds:   lnEthSeeds(0x0712),
+		seeds:   append(lnEthSeeds(0x0712), lsSnapSeeds(0x0712)...),
 		n:       40,
 		extra: func(rng *rand.Rand, add func(ops ...string)) {
 			// every type octet 0..255 with a 3-octet value, alone and after a device-info item
